@@ -141,7 +141,8 @@ Definition rewrite_texpr (e : texpr) : emitted :=
   match e with
   | TB2 n u => let s := interval_to_seconds n u in if s =? 0 then EUnch else E2 s s
   | TB3 n u o => let s := interval_to_seconds n u in
-                 if s =? 0 then EUnch else E3 (o / MICROS) (o / MICROS) s s     (* originTime.Unix() *)
+                 if negb (o mod MICROS =? 0) then EUnch        (* originTime.Nanosecond() != 0: left to DuckDB *)
+                 else if s =? 0 then EUnch else E3 (o / MICROS) (o / MICROS) s s     (* originTime.Unix() *)
   | DT u => let s := interval_to_seconds 1 u in if s =? 0 then EUnch else E2 s s
   | TOpaque => EUnch
   end.
@@ -648,51 +649,45 @@ Definition is_plain_like (f : factor) : bool :=
   | O, FAtom (ALike _ p) | O, FAtom (ANotLike _ p) => like_lit_ok p
   | _, _ => false
   end.
+(* col <> '' : the regexp  (\w+\s*<>\s*'')([^']|$)  requires that no third quote follows, so a
+   literal that merely starts with a quote (col <> '''x') is not taken for the empty check *)
 Definition is_plain_nonempty (f : factor) : bool :=
   match f_negs f, f_body f with
   | O, FAtom (ANonEmpty _) => true
   | _, _ => false
   end.
 
-(* col <> 'lit' whose literal STARTS with a quote is spelled with three quotes in a row: the
-   regexp  \w+\s*<>\s*''  matches up to the second of them, blind to the rest of the literal *)
-Definition quote_ne (f : factor) : option (nat * string) :=
-  match f_negs f, f_body f with
-  | O, FAtom (ANe c l) => match B l with 39%N :: _ => Some (c, l) | _ => None end
-  | _, _ => None
-  end.
-Definition like_append (f : factor) (l : string) : factor :=
-  match f_body f with
-  | FAtom (ALike c p) => {| f_negs := f_negs f; f_body := FAtom (ALike c (p ++ l)) |}
-  | FAtom (ANotLike c p) => {| f_negs := f_negs f; f_body := FAtom (ANotLike c (p ++ l)) |}
-  | _ => f
-  end.
-
-(* reorderEmptyCheckBeforeLike: the text right after WHERE is  col [NOT] LIKE 'p' AND col2 <> ''
-   - or merely STARTS like that (a literal beginning with a quote): then the rest of that literal
-   ends up glued to the LIKE pattern *)
+(* reorderEmptyCheckBeforeLike: the text right after WHERE is  col [NOT] LIKE 'p' AND col2 <> '' *)
 Definition opt1 (cl : clause) : clause :=
   match cl with
   | (f1 :: f2 :: rest) :: chains =>
-      if is_plain_like f1 then
-        if is_plain_nonempty f2 then (f2 :: f1 :: rest) :: chains
-        else match quote_ne f2 with
-             | Some (c2, l) => ({| f_negs := 0; f_body := FAtom (ANonEmpty c2) |} :: like_append f1 l :: rest) :: chains
-             | None => cl
-             end
-      else cl
+      if is_plain_like f1 && is_plain_nonempty f2 then (f2 :: f1 :: rest) :: chains else cl
   | _ => cl
   end.
 
-(* the clause starts with the text that triggers the string-literal-blind match *)
-Definition quote_trigger (cl : clause) : bool :=
-  match cl with
-  | (f1 :: f2 :: _) :: _ => is_plain_like f1 && match quote_ne f2 with Some _ => true | None => false end
-  | _ => false
+(* patternTopLevelOr = (?i)\bOR\b  on the text that precedes the trailing check: the word OR
+   anywhere in it (top level, inside parentheses, inside a literal) *)
+Definition is_word (c : N) : bool :=
+  (N.leb 48 c && N.leb c 57) || (N.leb 65 c && N.leb c 90) || (N.leb 97 c && N.leb c 122) || N.eqb c 95.
+Definition is_O (c : N) : bool := N.eqb c 79 || N.eqb c 111.
+Definition is_R (c : N) : bool := N.eqb c 82 || N.eqb c 114.
+
+Fixpoint word_or_from (prev_word : bool) (s : bytes) : bool :=
+  match s with
+  | [] => false
+  | c :: s' =>
+      (negb prev_word && is_O c &&
+       match s' with
+       | r :: s'' => is_R r && match s'' with [] => true | n :: _ => negb (is_word n) end
+       | [] => false
+       end)
+      || word_or_from (is_word c) s'
   end.
+Definition word_or (s : bytes) : bool := word_or_from false s.
 
 (* optimizeMultiplePredicates: the clause text ends in  ... AND col <> ''  ; that check moves to
-   the very front of the text when the text before it mentions LIKE *)
+   the very front of the text when the text before it mentions LIKE and does not contain the
+   word OR *)
 Definition split_last {A} (l : list A) : option (list A * A) :=
   match rev l with
   | [] => None
@@ -710,6 +705,7 @@ Definition opt2 (cl : clause) : clause :=
           | [] => cl                                  (* the check is preceded by OR (or nothing), not by AND *)
           | _ :: _ =>
               if is_plain_nonempty f &&
+                 negb (word_or (print_clause (chains ++ [init]))) &&
                  containsb (B "LIKE") (upperb (print_clause (chains ++ [init])))
               then match chains with
                    | [] => [f :: init]
